@@ -498,6 +498,10 @@ def main(tier):
     from pyvc import difftest
     n, bad = difftest.run(int(H.os.environ.get("VERIF_SEED", "0")))
     extra = {"engine_selftest_differential": {"cases": n, "disagreements": [list(map(str, b)) for b in bad[:10]]}}
+    extra["lean_lemmas"] = H.lean_lemmas()
+    if extra["lean_lemmas"].get("checked") is False and "returncode" in extra["lean_lemmas"]:
+      print(f"ENGINE-ERROR property={PID}: lemmas/Spec.lean does not check: {extra['lean_lemmas']['output'][-300:]}")
+      return 3
     if bad:
       print(f"ENGINE-ERROR property={PID}: interpreter/library model disagrees with native execution on {len(bad)} of {n} cases: {bad[0]}")
       return 3
